@@ -83,6 +83,7 @@ def run(ctx):
     r14_answer_lengths(ctx, pf)
     r15_batch_validity(ctx)
     r16_pmf_recognition(ctx)
+    r17_fallback_rows(ctx)
 
 
 def _is_identity_any(e, actions_name):
@@ -305,6 +306,20 @@ def r16_pmf_recognition(ctx, rule="C15.R16"):
                 nonneg = canon(unparse(p.args[0].elt)) in (canon(f"{v} >= 0"), canon(f"0 <= {v}"))
         ctx.ob(rule, SAF, "SafeLearner.possible_pmf", r, "a PMF candidate has the length of the action set, sums to one and has no negative entry", has_len and has_sum and nonneg,
                detail={"length": has_len, "sum": has_sum, "non-negative": nonneg})
+
+
+def r17_fallback_rows(ctx, rule="C15.R17"):
+    ctx.rule(rule, "the per-row fallback builds its rows from every argument: an argument that is None (no context, no probability) is None for every row instead of being "
+                   "zipped (zip over None raises and the transparent per-row call would fail for interactions without a context)")
+    fn = ctx.fn(SAF, "SafeLearner._method2")
+    A = fn.args.args[2].arg
+    zips = [c for c in ast.walk(fn) if isinstance(c, ast.Call) and call_name(c) == "zip"]
+    ctx.floor(rule, "row zips in the per-row fallback", len(zips), 1)
+    for z in zips:
+        raw = len(z.args) == 1 and isinstance(z.args[0], ast.Starred) and unparse(z.args[0].value) == A
+        guarded = len(z.args) == 1 and isinstance(z.args[0], ast.Starred) and isinstance(z.args[0].value, (ast.ListComp, ast.GeneratorExp)) and unparse(z.args[0].value.generators[0].iter) == A \
+            and isinstance(z.args[0].value.elt, ast.IfExp) and "None" in unparse(z.args[0].value.elt.test) and "repeat(" in unparse(z.args[0].value.elt)
+        ctx.ob(rule, SAF, "SafeLearner._method2", z, "None arguments are repeated, the others are zipped row by row", guarded and not raw)
 
 
 def r15_batch_validity(ctx, rule="C15.R15"):
@@ -626,9 +641,23 @@ def r5_fallback(ctx):
         nxt = unparse(body[i + 1]) if i + 1 < len(body) else ""
         ctx.ob("C15.R5", SAF, "SafeLearner._safe_call", c, "the batched attempt's output is validated before it is accepted", "raise_if_not_valid_out(out, expected_size)" in nxt, stmt="validate batched")
     m2 = ctx.fn(SAF, "SafeLearner._method2")
-    comps = [x for x in walk_shallow(m2) if isinstance(x, ast.ListComp)]
-    ok = len(comps) == 1 and unparse(comps[0].generators[0].iter) == "enumerate(zip(*args))" and \
-        alpha(comps[0]) == alpha("[method(*a, **{k: v[i] for k, v in kwargs.items()}) for i, a in enumerate(zip(*args))]")
+    comps = [x for x in walk_shallow(m2) if isinstance(x, ast.ListComp) and any(isinstance(c_, ast.Call) and unparse(c_.func) == m2.args.args[1].arg for c_ in ast.walk(x.elt))]
+    # the rows: enumerate(zip(*args)) directly, or enumerate(<rows>) with <rows> bound once to a zip over the arguments (judged by C15.R17)
+    it = comps[0].generators[0].iter if comps else None
+    rows_ok = False
+    if isinstance(it, ast.Call) and call_name(it) == "enumerate" and it.args:
+        a0 = it.args[0]
+        if unparse(a0) == "zip(*args)":
+            rows_ok = True
+        elif isinstance(a0, ast.Name):
+            ds = assigned_value(m2, a0.id)
+            rows_ok = len(ds) == 1 and isinstance(ds[0], ast.Call) and call_name(ds[0]) == "zip"
+    ok = False
+    if len(comps) == 1 and rows_ok:
+        import copy as _copy
+        c0 = _copy.deepcopy(comps[0])
+        c0.generators[0].iter = ast.parse("enumerate(zip(*args))", mode="eval").body   # the row source was judged above
+        ok = alpha(c0) == alpha("[method(*a, **{k: v[i] for k, v in kwargs.items()}) for i, a in enumerate(zip(*args))]")
     ctx.ob("C15.R5", SAF, "SafeLearner._method2", comps[0] if comps else m2, "the fall-back calls the method once per row, in row order, with that row's kwargs", ok)
 
 
@@ -642,6 +671,7 @@ def _body_of(st):
 
 
 CONTROLS = [
+    ("per-row fallback zips whatever it is given", SAF, M.replace_expr("SafeLearner._method2", "zip(*[a if a is not None else repeat(None, n) for a in args])", "zip(*args)"), "C15.R17"),
     ("PMF candidates bounded above instead of below", SAF, M.replace_expr("SafeLearner.possible_pmf", "i >= 0", "i <= 1"), "C15.R16"),
     ("batch validity measured on the last element", SAF, M.replace_expr("SafeLearner.raise_if_not_valid_out", "len_or_0(out[0])", "len_or_0(out[-1])"), "C15.R15"),
     ("safe-action cache keyed by the caller's own list", SAF, M.replace_expr("SafeLearner.predict", "list(actions) if actions.__class__ is list else actions", "actions"), "C15.R6"),
